@@ -115,7 +115,10 @@ impl ClaimData {
                 Ok(Self::Number(n))
             }
             ClaimType::Scalar => {
-                let s = Scalar::from_be_bytes(&<[u8; 32]>::try_from(data).unwrap());
+                let bytes = <[u8; 32]>::try_from(data).map_err(|_| {
+                    Error::InvalidClaimData("scalar claim could not be deserialized")
+                })?;
+                let s = Scalar::from_be_bytes(&bytes);
                 if s.is_none().unwrap_u8() == 1 {
                     return Err(Error::InvalidClaimData(
                         "scalar claim could not be deserialized",
